@@ -725,7 +725,7 @@ def real_codec_part(ctx, real_b):
                 ms.append(cli_compress(T, codec, x, level_of(codec)))
         return ms
 
-    plan = [(5, 16), (64, 30), (1000, 20)] if quick else [(1, 30), (5, 60), (64, 120), (1000, 100), (4096, 60)]
+    plan = [(5, 16), (64, 30), (1000, 20)] if quick else [(1, 100), (5, 300), (64, 600), (1000, 400), (4096, 200)]
     work = []
     for bufsz, n in plan:
         scs = []
@@ -1260,7 +1260,7 @@ def tool_part(ctx, bufsz):
                 for k in ([rng.choice([1, 2, 3])] if quick else [0, 1, 2, 3, 5]):
                     cut, got, first = member_of_length(T, codec, tar, edge - k)
                     add("straddle", codec, tag, "2 members, the second starts at byte %d (edge %d)" % (got, edge), first + ref_compress(T, codec, tar[cut:]), "same")
-            ncut = (8 if small else 2) if quick else (40 if small else 6)
+            ncut = (8 if small else 2) if quick else (80 if small else 10)
             cuts = {MAGIC_LEN[codec], len(whole) - 1, len(whole) - 4, len(whole) // 2, 100}
             while len(cuts) < ncut + 5:
                 cuts.add(rng.randint(MAGIC_LEN[codec], len(whole) - 1))
@@ -1269,7 +1269,7 @@ def tool_part(ctx, bufsz):
             # the magic number itself damaged: tar_open_stream cannot recognise the codec and reads the bytes as a tar stream
             b0 = bytearray(whole); b0[0] ^= 1
             add("magic-damaged", codec, tag, "bit 0 of byte 0 (magic number) flipped, %d bytes" % len(whole), bytes(b0), "error-or-same")
-            nflip = (6 if small else 1) if quick else (40 if small else 4)
+            nflip = (6 if small else 1) if quick else (120 if small else 10)
             for _ in range(nflip):
                 pos = rng.randrange(len(whole)); bit = rng.randrange(8)
                 b = bytearray(whole); b[pos] ^= 1 << bit
